@@ -284,6 +284,37 @@ Definition update (s : cset) (a : arg) : res cset :=
   | None => Er AttributeError
   end.
 
+(* the set as it is left when an in-place bulk update raises half-way:
+   update() has stored the objects before the first string; symmetric_difference_update() has
+   added the absent objects before the first absent string and removed nothing yet (a frozen set
+   and the ValueError of _ensure_fsbase are raised before anything is touched) *)
+Fixpoint update_partial (d : dict) (l : list item) : dict :=
+  match l with
+  | IE e :: r => update_partial (dset e d) r
+  | _ => d
+  end.
+Fixpoint add_absent_partial (d : dict) (l : list item) : dict :=
+  match l with
+  | [] => d
+  | it :: r =>
+      if dhas (key_of it) d then add_absent_partial d r
+      else match it with
+           | IE e => add_absent_partial (dset e d) r
+           | IS _ => d
+           end
+  end.
+Definition failed_update_state (s : cset) (u : N) (a : arg) : cset :=
+  match u with
+  | 0%N | 1%N => s
+  | 2%N => if mut s
+           then match a with
+                | AIter _ => s
+                | _ => with_ents s (add_absent_partial (ents s) (arg_items a))
+                end
+           else s
+  | _ => with_ents s (update_partial (ents s) (arg_items a))
+  end.
+
 (* change_offset_rewriter: strips len(orig.rstrip("/")) characters BLINDLY, then "/"s, joins *)
 Definition reloc (old new : str) (loc : str) : str :=
   normpath (pjoin new (lstrip_sl (skipn (length (rstrip_sl old)) loc))).
@@ -366,18 +397,17 @@ Inductive op :=
 | OTest (t : N) (a : rarg)     (* 0 issubset 1 issuperset 2 isdisjoint *)
 | OChOff (old new : str) | OInsOff (off : str) | OMissing (tag : N) | OChild (start : str).
 
-(* one step: (value reported for the op, new current set, stop?) — an exception raised by an
-   in-place bulk update ends the sequence (the partially updated set is not compared) *)
-Definition step (s : cset) (o : op) : val * cset * bool :=
-  let of_res (r : res cset) (stop : bool) :=
-    match r with Ok s' => (VNone, s', false) | Er k => (enc_err k, s, stop) end in
+(* one step: (value reported for the op, new current set) *)
+Definition step (s : cset) (o : op) : val * cset :=
+  let of_res (r : res cset) (failed : cset) :=
+    match r with Ok s' => (VNone, s') | Er k => (enc_err k, failed) end in
   match o with
-  | OAdd r => of_res (add s (mk_raw r)) false
-  | ORemove i => of_res (remove s (mk_item i)) false
-  | ODiscard i => (VNone, discard s (mk_item i), false)
-  | OGet i => (match getitem s (mk_item i) with Ok e => enc_entry e | Er k => enc_err k end, s, false)
-  | OHas i => (VB (contains s (mk_item i)), s, false)
-  | OClear => of_res (clear s) false
+  | OAdd r => of_res (add s (mk_raw r)) s
+  | ORemove i => of_res (remove s (mk_item i)) s
+  | ODiscard i => (VNone, discard s (mk_item i))
+  | OGet i => (match getitem s (mk_item i) with Ok e => enc_entry e | Er k => enc_err k end, s)
+  | OHas i => (VB (contains s (mk_item i)), s)
+  | OClear => of_res (clear s) s
   | OBin b a =>
       let a' := mk_arg a in
       of_res (match b with
@@ -385,7 +415,7 @@ Definition step (s : cset) (o : op) : val * cset * bool :=
               | 1%N => intersection s a'
               | 2%N => union s a'
               | _ => symmetric_difference s a'
-              end) false
+              end) s
   | OUpd u a =>
       let a' := mk_arg a in
       of_res (match u with
@@ -393,22 +423,20 @@ Definition step (s : cset) (o : op) : val * cset * bool :=
               | 1%N => intersection_update s a'
               | 2%N => symmetric_difference_update s a'
               | _ => update s a'
-              end) true
+              end) (failed_update_state s u a')
   | OTest t a =>
       let a' := mk_arg a in
-      (VB (match t with 0%N => issubset s a' | 1%N => issuperset s a' | _ => isdisjoint s a' end), s, false)
-  | OChOff old new => (VNone, change_offset s old new, false)
-  | OInsOff off => (VNone, insert_offset s off, false)
-  | OMissing tag => (VNone, add_missing_directories s tag, false)
-  | OChild st => (VNone, child_nodes s st, false)
+      (VB (match t with 0%N => issubset s a' | 1%N => issuperset s a' | _ => isdisjoint s a' end), s)
+  | OChOff old new => (VNone, change_offset s old new)
+  | OInsOff off => (VNone, insert_offset s off)
+  | OMissing tag => (VNone, add_missing_directories s tag)
+  | OChild st => (VNone, child_nodes s st)
   end.
 
 Fixpoint run_steps (s : cset) (ops : list op) : list val :=
   match ops with
   | [] => []
-  | o :: r =>
-      let '(v, s', stop) := step s o in
-      VL [v; if stop then VNone else enc_set s'] :: (if stop then [] else run_steps s' r)
+  | o :: r => let '(v, s') := step s o in VL [v; enc_set s'] :: run_steps s' r
   end.
 
 (* stream "ops": (mutable, initial raw entries, op sequence) *)
